@@ -245,3 +245,33 @@ class Timer:
 
     def __call__(self):
         return time.time() - self.t0
+
+
+class ProcessTZ:
+    """run a block with the process's local time zone set to `tz` (None: leave it alone)"""
+
+    def __init__(self, tz):
+        self.tz = tz
+
+    def __enter__(self):
+        import time
+
+        if self.tz:
+            self.saved = os.environ.get("TZ")
+            os.environ["TZ"] = self.tz
+            time.tzset()
+        return self
+
+    def __exit__(self, *a):
+        import time
+
+        if self.tz:
+            if self.saved is None:
+                os.environ.pop("TZ", None)
+            else:
+                os.environ["TZ"] = self.saved
+            time.tzset()
+        return False
+
+
+LOCAL_ZONES = ["Asia/Tokyo", "America/St_Johns", "Asia/Kathmandu", "America/New_York"]
